@@ -1,3 +1,3 @@
-import DosModel.Model.Util
--- stub: no model driver for this property yet
-def main : IO Unit := Dos.lineLoop (fun _ => "unimplemented")
+import DosModel.Model.Query
+import DosModel.Gen.DosnodeConsts
+def main : IO Unit := Dos.lineLoop (Dos.Query.stepLine Dos.Gen.padSize Dos.Gen.stripLen)
